@@ -181,7 +181,7 @@ func (s *sweep) nats(broker *rig.NatsServer) {
 func main() {
 	rig.Quiet()
 	run := ev.New("C12", ev.ArgTier(), "fault_enumeration")
-	run.Rule("a case is one message (shape: large string first / binary in the middle / string last / map container / last call argument / string result; protocol) whose framed size, MEASURED at the wire tap of an unlimited leg, lies at limit-8..limit+8 (step 1) or far from it, sent through a leg with that limit: HTTP request limit, HTTP client-requested response limit (defined on the unframed response: measured frame minus 4; also at the fixed limits 1000, 1001, 1002, 4096 = every residue mod 3), one HTTP handler shared by clients with different response limits (sequentially and concurrently), FTransport-level histories reusing the FContext of a refused request, NATS' fixed 1 MiB (request, server response, publish; broker with max_payload 1 MiB), STOMP maxPublishSize, and user-written transports that only declare a limit. Distinct = (leg, protocol, direction, shape, limit, size-limit). After every failure a canary call / publish on the same client and server must succeed.")
+	run.Rule("a case is one message (shape: large string first / binary in the middle / string last / map container / last call argument / string result; protocol) whose framed size, MEASURED at the wire tap of an unlimited leg, lies at limit-8..limit+8 (step 1) or far from it, sent through a leg with that limit: HTTP request limit, HTTP client-requested response limit (defined on the unframed response: measured frame minus 4; also at the fixed limits 1000, 1001, 1002, 4096 = every residue mod 3), one HTTP handler shared by clients with different response limits (sequentially and concurrently), FTransport-level histories reusing the FContext of a refused request, NATS' fixed 1 MiB (request, server response, publish; broker with max_payload 1 MiB), STOMP maxPublishSize, and user-written transports that only declare a limit. Also the METHOD NAME as the large part: requests within the limit for an unknown method whose name is 64 B .. just below / at / above half of the server's output limit .. request frame at the request limit (NATS, bounded 1 MiB output; pipe and HTTP as controls) must get an error reply (UNKNOWN_METHOD or RESPONSE_TOO_LARGE), never be silently lost. Distinct = (leg, protocol, direction, shape, limit, size-limit). After every failure a canary call / publish on the same client and server must succeed.")
 	run.Assume("the wire taps of the rig (HTTP round tripper, NATS subscriptions, STOMP broker), the embedded nats-server and net/http; header widths are constant by construction (fixed cid, 7-digit op ids, 4-digit timeouts), checked by comparing the frame length on the limited leg with the measurement")
 
 	natsBroker, err := rig.StartNatsMaxPayload(mib)
@@ -255,6 +255,7 @@ func main() {
 			s.natsConcurrent(natsBroker)
 			s.slim(natsBroker)
 			s.direct(natsBroker, limits)
+			s.unknownMethod(natsBroker)
 			run.Add("measurement_sends", m.sends)
 		}(proto)
 	}
